@@ -930,8 +930,9 @@ impl StreamsState {
         for dir in Dir::iter() {
             let diff = self.max_remote[dir as usize] - self.sent_max_remote[dir as usize];
             // To reduce traffic, only announce updates if at least 1/8 of the flow control window
-            // has been consumed.
-            if diff > self.max_concurrent_remote_count[dir as usize] / 8 {
+            // has been consumed (a raise that reaches that share is announced: `>` never announced a
+            // raise by one for limits of 8 to 15, nor 2 freed streams of 16).
+            if diff > 0 && diff >= self.max_concurrent_remote_count[dir as usize] / 8 {
                 pending.max_stream_id[dir as usize] = true;
                 queued = true;
             }
